@@ -163,6 +163,15 @@ BD_Shape<T>::congruences() const {
 template <typename T>
 inline void
 BD_Shape<T>::add_constraints(const Constraint_System& cs) {
+  // Validate all the constraints on a scratch object first, so that
+  // a rejected call leaves `*this' unchanged.
+  {
+    BD_Shape scratch(space_dimension(), UNIVERSE);
+    for (Constraint_System::const_iterator i = cs.begin(),
+           cs_end = cs.end(); i != cs_end; ++i) {
+      scratch.add_constraint(*i);
+    }
+  }
   for (Constraint_System::const_iterator i = cs.begin(),
          cs_end = cs.end(); i != cs_end; ++i) {
     add_constraint(*i);
